@@ -19,7 +19,7 @@ import (
 // task; "exec" with Async runs the HTTP request on its own task so that it
 // overlaps whatever comes next (scheduler ticks, other manual executions).
 type Op struct {
-	Kind string `json:"kind"` // sleep | tick | write | flush | exec | update | restart | crash | outage | wallstep
+	Kind string `json:"kind"` // sleep | tick | write | flush | exec | update | reload | restart | crash | outage | wallstep
 	Ms   int64  `json:"ms,omitempty"`
 	// write: one source row per entry, timestamp = now - AgeMs[i]
 	AgeMs []int64 `json:"age_ms,omitempty"`
@@ -63,8 +63,13 @@ func genC29(r *simrt.Rand, tier string) any {
 	}
 	// swarm: each run enables a subset of the disturbing op kinds
 	on := map[string]bool{}
-	for _, k := range []string{"exec", "exec-explicit", "exec-async", "update", "bad", "restart", "crash", "outage", "wallstep", "inactive", "burst"} {
+	for _, k := range []string{"exec", "exec-explicit", "exec-async", "update", "bad", "restart", "crash", "outage", "wallstep", "inactive", "burst", "interrupt"} {
 		on[k] = r.Chance(50)
+	}
+	if on["interrupt"] && p.Knobs.ExecLatencyMs == 0 && r.Chance(70) {
+		// interrupts are about a scheduled execution that is running when its
+		// job is stopped: mostly give an execution some duration
+		p.Knobs.ExecLatencyMs = []int{40, 400, 1500, 4000}[r.Intn(4)]
 	}
 	if on["burst"] && p.Knobs.ExecLatencyMs == 0 && r.Chance(70) {
 		// bursts are about executions that overlap each other: mostly give
@@ -107,6 +112,56 @@ func genC29(r *simrt.Rand, tier string) any {
 			}
 		}
 	}
+	// interrupt: the scheduler's job of the CQ is stopped (CQ update, scheduler
+	// reload, graceful shutdown) while the execution of a tick is in its
+	// aggregation phase, and the schedule goes on afterwards.
+	interrupt := func() {
+		lat := int64(p.Knobs.ExecLatencyMs)
+		if lat < 4 {
+			lat = 4
+		}
+		if r.Chance(40) {
+			// input rows for the window that is about to be processed
+			op := Op{Kind: "write"}
+			for k := 1 + r.Intn(3); k > 0; k-- {
+				op.AgeMs = append(op.AgeMs, int64(r.Intn(8000)))
+			}
+			p.Ops = append(p.Ops, op)
+			if r.Chance(60) {
+				p.Ops = append(p.Ops, Op{Kind: "flush"})
+			}
+		}
+		// an execution lasts between 1/2 and 3/2 of the latency
+		off := 1 + r.Int63n(lat/2)
+		if r.Chance(25) {
+			off = r.Int63n(lat*3/2 + 1)
+		}
+		p.Ops = append(p.Ops, Op{Kind: "tick", Ms: off})
+		switch r.Intn(4) {
+		case 0, 1:
+			op := Op{Kind: "update", Query: []string{"count", "grouped"}[r.Intn(2)], IntervalS: []int{10, 15, 30}[r.Intn(3)]}
+			if r.Chance(50) {
+				op.Query, op.IntervalS = p.Query, p.IntervalS
+			}
+			if on["bad"] && r.Chance(15) {
+				op.Query = "bad"
+			}
+			if on["inactive"] && r.Chance(10) {
+				op.Inactive = true
+			}
+			p.Ops = append(p.Ops, op)
+		case 2:
+			p.Ops = append(p.Ops, Op{Kind: "reload"})
+		default:
+			p.Ops = append(p.Ops, Op{Kind: "restart"})
+		}
+		// later executions
+		if r.Chance(50) {
+			p.Ops = append(p.Ops, Op{Kind: "tick", Ms: lat*3/2 + int64(r.Intn(2000))})
+		} else {
+			p.Ops = append(p.Ops, Op{Kind: "sleep", Ms: int64(11000 + r.Intn(30000))})
+		}
+	}
 	n := 4 + r.Intn(12)
 	if tier == "thorough" {
 		n = 4 + r.Intn(24)
@@ -114,6 +169,10 @@ func genC29(r *simrt.Rand, tier string) any {
 	for i := 0; i < n && len(p.Ops) < 40; i++ {
 		if on["burst"] && r.Chance(12) {
 			burst()
+			continue
+		}
+		if on["interrupt"] && r.Chance(12) {
+			interrupt()
 			continue
 		}
 		var op Op
@@ -171,6 +230,9 @@ func genC29(r *simrt.Rand, tier string) any {
 			}
 			if on["inactive"] && r.Chance(20) {
 				op.Inactive = true
+			}
+			if r.Chance(20) {
+				op = Op{Kind: "reload"}
 			}
 		case x < 91:
 			if !on["restart"] {
@@ -266,6 +328,20 @@ type c29exec struct {
 	maxInflight int
 	// executions held for the run's aggregation latency (logCapture)
 	latencyApplied int
+	// scheduled executions that were running when the driver stopped their job
+	// (CQ update, scheduler reload, graceful shutdown)
+	interrupted int
+	// which query text the CQ had when (sim ns): the definition it was created
+	// with, then one entry per update request (the definition changes somewhere
+	// between fromNs and toNs)
+	defs []defSpan
+	// source files accepted by storage (faultBackend)
+	srcFiles []srcFile
+}
+
+type defSpan struct {
+	fromNs, toNs int64
+	query        string
 }
 
 func parseTS(s string) (time.Time, bool) {
@@ -301,9 +377,11 @@ func execC29(p *C29Plan, cfg simrt.Config, root string) *c29exec {
 					simrt.Join(h)
 				}
 				async = nil
+				n.logs.jobStopping()
 				if !n.onNode("shutdown", n.shutdown) {
 					graceful = false
 				}
+				n.logs.jobStopped()
 			}
 			if n.sn.Dead || !graceful {
 				if !n.sn.Dead {
@@ -367,7 +445,7 @@ func execC29(p *C29Plan, cfg simrt.Config, root string) *c29exec {
 			return
 		}
 		ex.haveCQ = true
-		curQuery, curInterval := p.Query, p.IntervalS
+		ex.defs = append(ex.defs, defSpan{0, 0, p.Query})
 
 		for i := range p.Ops {
 			op := &p.Ops[i]
@@ -432,15 +510,33 @@ func execC29(p *C29Plan, cfg simrt.Config, root string) *c29exec {
 				} else {
 					n.onNode("manual-exec", do)
 				}
+			case "reload":
+				// what POST /api/v1/schedulers/cq/reload does
+				n.logs.jobStopping()
+				n.onNode("reload", func() {
+					if err := n.sched.ReloadAll(); err != nil {
+						fail("scheduler reload: %v", err)
+					}
+				})
+				n.logs.jobStopped()
+				if !n.sn.Dead {
+					jobStart = simrt.SimNow()
+					simrt.Event("RELOADED")
+				}
 			case "update":
+				n.logs.jobStopping()
+				ex.defs = append(ex.defs, defSpan{simrt.SimNow(), 1 << 62, op.Query})
 				n.onNode("update", func() {
 					st, rb := n.call("PUT", cqPath, cqBody(op.Query, op.IntervalS, !op.Inactive))
 					if st != 200 {
 						fail("update CQ: %d %s", st, rb)
 					}
 				})
+				n.logs.jobStopped()
 				if !n.sn.Dead {
-					curQuery, curInterval = op.Query, op.IntervalS
+					// (a process that died in the request may or may not have stored
+					// the new definition: the span stays open)
+					ex.defs[len(ex.defs)-1].toNs = simrt.SimNow()
 					interval = int64(op.IntervalS) * int64(time.Second)
 					jobStart = simrt.SimNow()
 					simrt.Event("UPDATED query=%s interval=%ds inactive=%v", op.Query, op.IntervalS, op.Inactive)
@@ -466,8 +562,6 @@ func execC29(p *C29Plan, cfg simrt.Config, root string) *c29exec {
 				return
 			}
 		}
-		_ = curQuery
-		_ = curInterval
 
 		// ---- quiesce and observe ----------------------------------------
 		n.sn.CrashAtStep = 0
@@ -476,8 +570,10 @@ func execC29(p *C29Plan, cfg simrt.Config, root string) *c29exec {
 		}
 		ensureUp()
 		n.fb.failFrom, n.fb.failUntil = 0, 0
+		n.logs.jobStopping()
 		ok := n.onNode("observe", func() {
-			n.sched.Stop() // waits for an in-flight scheduled execution
+			n.sched.Stop() // cancels and waits for an in-flight scheduled execution
+			n.logs.jobStopped()
 			st, rb := n.call("GET", cqPath+"/executions?limit=100000", nil)
 			if st != 200 {
 				fail("list executions: %d %s", st, rb)
@@ -537,8 +633,10 @@ func execC29(p *C29Plan, cfg simrt.Config, root string) *c29exec {
 			fail("node died during observation")
 		}
 		ex.failedDst, ex.failedSrc = n.fb.FailedDst, n.fb.FailedSrc
+		ex.srcFiles = n.fb.SrcFiles
 		ex.traces = n.logs.tr
 		ex.latencyApplied = n.logs.latencyApplied
+		ex.interrupted = n.logs.interrupted
 	})
 	if n != nil {
 		if n.up && n.cqh != nil {
@@ -888,6 +986,94 @@ func runC29(planAny any, cfg simrt.Config) *simkit.Outcome {
 			out.Violate("C29.output-missing", "window %s: executions report %d rows written, destination holds %d after a graceful shutdown without storage faults", win, w, g)
 		}
 	}
+
+	// ---- a consumed window was processed: its output exists ----------------
+	// A successful execution moves the schedule past its window, so the window
+	// must have been processed: the rows its aggregation yields are the output.
+	// The harness knows a lower bound of that without asking arc: the "count"
+	// query has no GROUP BY and yields one row for any window; the "grouped"
+	// query yields one row per host that has a source row inside the window,
+	// and every source file that storage had accepted before the execution
+	// selected its window is there for the aggregation to read. An execution
+	// recorded as completed with fewer rows than that consumed its window
+	// without processing it. (That the rows an execution reports are in the
+	// destination is judged above: output-missing.)
+	queriesAt := func(t int64) []string {
+		cur := []string{ex.defs[0].query}
+		for _, d := range ex.defs[1:] {
+			if t < d.fromNs {
+				break
+			}
+			if t > d.toNs {
+				cur = []string{d.query}
+			} else {
+				cur = append(cur, d.query)
+			}
+		}
+		return cur
+	}
+	inputHosts := func(k wkey, beforeNs int64) int64 {
+		hosts := map[string]bool{}
+		for _, f := range ex.srcFiles {
+			if f.atNs >= beforeNs {
+				continue
+			}
+			for _, r := range f.rows {
+				if r.t >= k.s*1_000_000 && r.t < k.e*1_000_000 {
+					hosts[r.host] = true
+				}
+			}
+		}
+		return int64(len(hosts))
+	}
+	for _, e := range ex.execs {
+		if e.Status != "completed" || !ex.haveCQ {
+			continue
+		}
+		tr := ex.traces[e.ExecID]
+		if tr == nil {
+			// the handler's log line of this execution was not seen: nothing
+			// known about when it ran
+			out.Stats["probe.executions_without_trace"]++
+			continue
+		}
+		k := wkey{e.Start.Unix(), e.End.Unix()}
+		hosts := inputHosts(k, tr.selectNs)
+		need := int64(-1)
+		var qs []string
+		for _, q := range queriesAt(tr.selectNs) {
+			var m int64
+			switch q {
+			case "count":
+				m = 1
+			case "grouped":
+				m = hosts
+			default:
+				continue // the "bad" query cannot complete
+			}
+			qs = append(qs, q)
+			if need < 0 || m < need {
+				need = m
+			}
+		}
+		if need > 0 {
+			out.Stats["probe.windows_consumed_that_must_have_output"]++
+		}
+		if need <= 0 || e.Written >= need {
+			continue
+		}
+		circ := "other"
+		if tr.interrupted {
+			circ = "scheduled-execution-running-when-its-job-was-stopped"
+		}
+		kind := "manual"
+		if e.Sched {
+			kind = "scheduled"
+		}
+		out.Violate("C29.window-consumed-without-output."+circ, "%s execution #%d (%s) is recorded as completed for window [%s, %s) with %d rows written and the next window starts at its end, but the aggregation over that window yields at least %d row(s) (query %s; %d host(s) had source rows of that window in storage before the execution selected it); the destination holds %d row(s) for the window",
+			kind, e.ID, e.ExecID, ts(e.Start), ts(e.End), e.Written, need, strings.Join(qs, "|"), hosts, got[k])
+	}
+	out.Stats["probe.scheduled_executions_running_when_job_stopped"] += int64(ex.interrupted)
 
 	out.Stats["probe.executions_ok"] += int64(nSucc)
 	out.Stats["probe.executions_failed"] += int64(nFail)
